@@ -450,6 +450,11 @@ def _check_counter_writer(rep, facts, a, fn, l, writer, base_idx, seq_idx, same_
             lb_, lf_ = addr_fields(a_[2][1])
             if (lb_ == ('param', base_idx) or lb_ == ('local', l)) and same_ty:
                 slices = [('slice', a_, None)]
+    if len(slices) == 1 and slices[0][2] is not None and slices[0][2][0] == 'len' and same_ty:
+        # buf[a..base_nonce.0.len()]: the base nonce and the buffer have the same fixed-size type, so that is buf[a..]
+        hb_, _hf = addr_fields(slices[0][2][1])
+        if hb_ == ('param', base_idx) or hb_ == ('local', l):
+            slices = [('slice', slices[0][1], None)]
     if len(slices) == 1 and slices[0][2] is None:
         lo = slices[0][1]
         if lo[0] == 'bin' and lo[1] == 'Sub':
